@@ -738,12 +738,20 @@ def r_dump_validates(model, rep):
     ok = bool([ev for ev in cx.calls("dump", on_self=True) if not T.guard_tests(ev)])
     rep.ob("R-DUMP-VALIDATES", "common.MetadataBase.dumps", ok, site=cx.site(f.node),
            msg="" if ok else "dumps() does not go through dump()")
-    # no subclass bypasses dump/dumps
+    # no subclass bypasses dump/dumps: an override is held to the same rule
     for cls in facts.metadata_classes(model):
         for name in ("dump", "dumps"):
-            if name in cls.methods and cls.qname != "treeinfo.TreeInfo":
-                rep.ob("R-DUMP-VALIDATES", "%s.%s(override)" % (cls.qname, name), False,
-                       site=cls.module.site(cls.methods[name]), msg="unexpected override of %s()" % name)
+            if name in cls.methods and not (cls.qname == "treeinfo.TreeInfo" and name == "dump"):
+                g = FuncRef(cls.module, cls, cls.methods[name])
+                if name == "dump":
+                    ex = Walker(DumpValidates(g.node.args.args[0].arg, model, g)).run(g.node, {frozenset()})
+                    states = list(ex.normal) + [s_ for s_, _ in ex.ret]
+                    ok = bool(states) and all("B" in st and "bad" not in st for st in states)
+                else:
+                    gcx = facts.fctx(model, g)
+                    ok = bool([ev for ev in gcx.calls("dump", on_self=True) if not T.guard_tests(ev)])
+                rep.ob("R-DUMP-VALIDATES", "%s.%s(override)" % (cls.qname, name), ok, site=cls.module.site(cls.methods[name]),
+                       msg="" if ok else "the override of %s() writes without validate()+serialize() (or bypasses dump())" % name)
 
 
 # ---------------------------------------------------------------------------------------------------------
@@ -891,29 +899,38 @@ def r_reader_validates(model, rep):
 
 
 def r_loads(model, rep):
+    def loads_ok(cx):
+        ld = [ev for ev in cx.calls("load", on_self=True) if not T.guard_tests(ev)]
+        v = [ev for ev in cx.calls("validate", on_self=True) if not T.guard_tests(ev)]
+        return bool(ld and v) and ld[0].seq < v[-1].seq
+
+    def load_ok(cx):
+        pf = [ev for ev in cx.calls("parse_file", on_self=True) if not T.guard_tests(ev)]
+        ds = [ev for ev in cx.calls("deserialize", on_self=True) if not T.guard_tests(ev)]
+        ok = bool(pf and ds) and pf[0].seq < ds[0].seq
+        if ok:
+            # deserialize receives what parse_file returned
+            arg = ds[0].value[2][0] if ds[0].value[2] else None
+            ok = arg is not None and T.contains(arg, lambda x: x == pf[0].value)
+        return ok
     f = model.own_method("common.MetadataBase", "loads")
     cx = facts.fctx(model, f)
-    ld = [ev for ev in cx.calls("load", on_self=True) if not T.guard_tests(ev)]
-    v = [ev for ev in cx.calls("validate", on_self=True) if not T.guard_tests(ev)]
-    ok = bool(ld and v) and ld[0].seq < v[-1].seq
+    ok = loads_ok(cx)
     rep.ob("R-LOADS", "common.MetadataBase.loads", ok, site=cx.site(f.node),
            msg="" if ok else "loads() must call self.load() and then self.validate() unconditionally")
     f = model.own_method("common.MetadataBase", "load")
     cx = facts.fctx(model, f)
-    pf = [ev for ev in cx.calls("parse_file", on_self=True) if not T.guard_tests(ev)]
-    ds = [ev for ev in cx.calls("deserialize", on_self=True) if not T.guard_tests(ev)]
-    ok = bool(pf and ds) and pf[0].seq < ds[0].seq
-    if ok:
-        # deserialize receives what parse_file returned
-        arg = ds[0].value[2][0] if ds[0].value[2] else None
-        ok = arg is not None and T.contains(arg, lambda x: x == pf[0].value)
+    ok = load_ok(cx)
     rep.ob("R-LOADS", "common.MetadataBase.load", ok, site=cx.site(f.node),
            msg="" if ok else "load() must pass the result of parse_file() to deserialize()")
+    # an override (the base method reached through super() is inlined) is held to the same rule
     for cls in facts.metadata_classes(model):
         for name in ("load", "loads"):
             if name in cls.methods:
-                rep.ob("R-LOADS", "%s.%s(override)" % (cls.qname, name), False, site=cls.module.site(cls.methods[name]),
-                       msg="unexpected override of %s()" % name)
+                gcx = facts.fctx(model, FuncRef(cls.module, cls, cls.methods[name]))
+                ok = load_ok(gcx) if name == "load" else loads_ok(gcx)
+                rep.ob("R-LOADS", "%s.%s(override)" % (cls.qname, name), ok, site=cls.module.site(cls.methods[name]),
+                       msg="" if ok else "the override of %s() does not parse the file and deserialize it (and validate) as the base method does" % name)
 
 
 def r_hdr_gate(model, rep, tier):
